@@ -427,7 +427,7 @@ pub fn sets(ctx: &Ctx) -> Vec<CaseSet> {
     let (tb1, cfg1) = (tb.clone(), cfg.clone());
     out.push(CaseSet::new(
         "default-options-every-offset",
-        ctx.size(30_000, 300_000),
+        ctx.size(30_000, 1_500_000),
         Box::new(move |rep, rng, _| {
             let v = gen_c07_value(rng, &cfg1, &tb1);
             check(rep, &v, &P::default_(), rng, true);
@@ -437,7 +437,7 @@ pub fn sets(ctx: &Ctx) -> Vec<CaseSet> {
     let (tb2, cfg2) = (tb.clone(), cfg.clone());
     // quick: 48 option sets sampled by stride; thorough: all 576
     let n_opts: u64 = if thorough { N_P as u64 } else { 48 };
-    let per_opt = ctx.size(48, 120);
+    let per_opt = ctx.size(48, 400);
     out.push(CaseSet::new(
         "option-sets-every-offset",
         n_opts * per_opt,
@@ -455,7 +455,7 @@ pub fn sets(ctx: &Ctx) -> Vec<CaseSet> {
     let (tb3, cfg3) = (tb.clone(), cfg.clone());
     out.push(CaseSet::new(
         "larger-values-sampled-offsets",
-        ctx.size(8_000, 100_000),
+        ctx.size(8_000, 500_000),
         Box::new(move |rep, rng, _| {
             let mut c = (*cfg3).clone();
             c.max_depth = 5;
@@ -469,7 +469,7 @@ pub fn sets(ctx: &Ctx) -> Vec<CaseSet> {
     let (tb4, cfg4) = (tb.clone(), cfg.clone());
     out.push(CaseSet::new(
         "printer-reused-after-transient-error",
-        ctx.size(8_000, 100_000),
+        ctx.size(8_000, 500_000),
         Box::new(move |rep, rng, _| {
             let v1 = gen_c07_value(rng, &cfg4, &tb4);
             let v2 = gen_c07_value(rng, &cfg4, &tb4);
@@ -512,6 +512,6 @@ pub fn sets(ctx: &Ctx) -> Vec<CaseSet> {
         }),
     ));
 
-    out.push(CaseSet::new("serde-entry-points", ctx.size(6_000, 100_000), Box::new(move |rep, rng, _| serde_entry(rep, rng))));
+    out.push(CaseSet::new("serde-entry-points", ctx.size(6_000, 400_000), Box::new(move |rep, rng, _| serde_entry(rep, rng))));
     out
 }
